@@ -7,6 +7,7 @@ import (
 	"strings"
 	"sync"
 	"time"
+	"unicode/utf8"
 
 	"github.com/tidwall/gjson"
 	"github.com/tidwall/resp"
@@ -320,8 +321,16 @@ func (config *Config) setProperty(name, value string, fromLoad bool) error {
 	default:
 		return clientErrorf("Unsupported CONFIG parameter: %s", name)
 	case RequirePass:
+		if !utf8.ValidString(value) {
+			// the config file is JSON and cannot hold it: after a rewrite
+			// another password would be the valid one
+			return clientErrorf("Invalid argument for CONFIG SET '%s'", name)
+		}
 		config._requirePass = value
 	case LeaderAuth:
+		if !utf8.ValidString(value) {
+			return clientErrorf("Invalid argument for CONFIG SET '%s'", name)
+		}
 		config._leaderAuth = value
 	case AutoGC:
 		if value == "" {
